@@ -227,6 +227,15 @@ func streamBuildorder(g *core.G) {
 			b.WriteString("Architecture: any\nVersion: 1.0-1\nMaintainer: A <a@b>\n")
 			for f, name := range []string{"Build-Depends", "Build-Depends-Arch", "Build-Depends-Indep"} {
 				if len(s.deps[f]) > 0 {
+					if r.Chance(1, 20) {
+						// archive-sized field: the relations that matter come after several
+						// KiB of others, on one physical line or folded
+						var pad []string
+						for x := r.Range(250, 700); x > 0; x-- {
+							pad = append(pad, r.Pick([]string{"external-pkg", "libext-dev (>= 1:2.0)", "ext:any"}))
+						}
+						s.deps[f] = append(pad, s.deps[f]...)
+					}
 					if r.Bool() {
 						b.WriteString(name + ": " + strings.Join(s.deps[f], ", ") + "\n")
 					} else {
